@@ -233,15 +233,13 @@ Lemma naming_witness_ok :
   (let ete := map ascii_of_nat [195; 169; 116; 195; 169] in utf8 ete = true /\ naming_b RCamel ete = Ok ete).
 Proof. vm_compute. auto. Qed.
 
-(* apply_to_variant as called by compute_variant_name: only CamelCase slices *)
-Lemma variant_safe r s : wf s = true -> (r = RCamel -> kf_C15_variant s = false) -> safe (apply_to_variant_b r s).
-Proof. intros Hw Hk. destruct r; try exact I. specialize (Hk eq_refl). unfold apply_to_variant_b, variant_camel_b, kf_C15_variant in *.
-  destruct s as [|c r]; [discriminate|]. apply negb_false_iff in Hk.
-  rewrite (slice_to_ok (c :: r) 1); [|simpl; lia|exact (boundary_succ (c :: r) 0 c Hw eq_refl Hk)]. cbn [bind].
-  rewrite (slice_from_ok (c :: r) 1); [exact I|simpl; lia|exact (boundary_succ (c :: r) 0 c Hw eq_refl Hk)]. Qed.
-Lemma variant_refuted :
+(* compute_variant_name: the CamelCase arm is guarded, the other arms of apply_to_variant do not slice *)
+Lemma variant_safe r s : safe (variant_b r s).
+Proof. destruct r; try exact I. unfold variant_b. destruct s; exact I. Qed.
+(* the crate function itself still panics on the former witness; the call site no longer reaches it *)
+Lemma variant_witness_ok :
   let etat := map ascii_of_nat [195; 137; 116; 97; 116] in
-  utf8 etat = true /\ kf_C15_variant etat = true /\ apply_to_variant_b RCamel etat = Panic.
+  utf8 etat = true /\ apply_to_variant_b RCamel etat = Panic /\ variant_b RCamel etat = Ok etat.
 Proof. vm_compute. auto. Qed.
 
 (* ================= type_resolver.rs ================= *)
